@@ -1,4 +1,6 @@
 import Driver.Sexp
+import Driver.Laws
+import BoolFn.RenderText
 import BoolFn.Spec.Check
 import BoolFn.Spec.Grammar
 /-! Correspondence driver: one request per line
@@ -130,12 +132,22 @@ def csvImportOk (text : String) (impl : Sexp) : Bool × String :=
          | .error _ => false)
       (okNames && okRows, if okNames then "record-disagrees" else "names-or-shape")
     else if isErrS impl then
-      (faulty || names.length ≥ 64, "complete-table-rejected")
+      -- the property does not promise that every complete table is accepted; this clause only flags
+      -- the rejection of a text whose `\n`-separated lines are exactly its records (no white-space-only
+      -- first or last line and no bare `\r` terminator, which the importer's `trim().split('\n')` line
+      -- count treats differently from the reader)
+      let lineCountAmbiguous := fileRowCount cs != recs.length
+      (faulty || names.length ≥ 64 || lineCountAmbiguous, "complete-table-rejected")
     else (false, "bad-answer")
 
 def handle (prop op : String) (args : List Sexp) (impl : Sexp) : Reply :=
   let structural (m : Sexp) (holds : Bool) (clause : String := "spec") : Reply :=
     ⟨m == impl, m, holds, clause⟩
+  -- law instances (sizes beyond the executable model): the verdict is the law itself
+  if op.startsWith "law." then
+    let r := lawJudge op args impl
+    ⟨r.1, atom "law-instance", r.1, r.2⟩
+  else
   match op, args with
   -- C01 conversions ------------------------------------------------------------------------
   | "conv.ET", [e] =>
@@ -356,7 +368,12 @@ def handle (prop op : String) (args : List Sexp) (impl : Sexp) : Reply :=
     let x := decTable t
     let grid := cells x (fmtOf fi) (fmtOf fo)
     let got := readCells (styleOf st) (decStr impl)
-    ⟨got == grid, encList (grid.map fun r => encList (r.map encStr)), got == grid, "cells"⟩
+    -- the modelled text (`tabled` layout for cells one column wide per character) must be the real one
+    if grid.all (·.all narrowText) then
+      let text := render (styleOf st) grid
+      ⟨text == decStr impl, encStr text, got == grid, "cells"⟩
+    else
+      ⟨got == grid, encList (grid.map fun r => encList (r.map encStr)), got == grid, "cells"⟩
   | "display", [t, rendered] =>
     -- impl = to_string(); `rendered` = to_string_formatted(Empty, Word, Word) from the implementation
     let x := decTable t
